@@ -702,3 +702,5 @@ META = {
 }
 
 META['explanation'] += ' ' + 'Further: load_save restores verbatim; every loaded structure is seeded unconditionally; the loaders never write files or (un)pickle state.'
+
+META['explanation'] += ' ' + 'Round 13: the flags written to the save file come from keys the loader really records; the save made on exhaustion follows the position reset.'
